@@ -151,6 +151,11 @@ def step (s : St α) : Op α → St α × List (Out α)
   | .next =>
     match s.cons with
     | .idle =>
+      -- a future cancelled by an earlier, cancelled `__anext__` is replaced first (the `fix:` for waits that
+      -- timed out): that cancellation said nothing about the observation
+      let s := match s.get s.slot with
+        | .cancelled => s.install .pending
+        | _ => s
       if (s.get s.slot).done then finish s s.slot
       else ({ s with cons := .waiting s.slot }, [])
     | .waiting _ => (s, [])      -- a second concurrent `__anext__`: not modelled
